@@ -173,7 +173,15 @@ func init() {
 		props[id].Harnesses = append(props[id].Harnesses, retrieve...)
 	}
 	props["C12"].Harnesses = append(props["C12"].Harnesses, HarnessSpec{Name: "VH_C12_routing", Replay: "native", Unwind: 400})
-	props["C09"].Harnesses = append(props["C09"].Harnesses, HarnessSpec{Name: "VH_C09_bare_config", Replay: "native", Unwind: 400, Panics: true})
+	props["C09"].Harnesses = append(props["C09"].Harnesses, HarnessSpec{Name: "VH_C09_bare_config", Replay: "native", Unwind: 400, Panics: true},
+		HarnessSpec{Name: "VH_C03_validate", Replay: "native", Panics: true},
+		HarnessSpec{Name: "VH_C05_conditions", Replay: "native", Panics: true},
+		HarnessSpec{Name: "VH_C10_logout_request", Replay: "native", Panics: true},
+		HarnessSpec{Name: "VH_C10_logout_response", Replay: "native", Panics: true})
+	props["C18"].Harnesses = append(props["C18"].Harnesses,
+		HarnessSpec{Name: "VH_C15_authn_request", Replay: "native", Unwind: 2000},
+		HarnessSpec{Name: "VH_C15_logout_request", Replay: "native", Unwind: 2000},
+		HarnessSpec{Name: "VH_C15_logout_response", Replay: "native", Unwind: 2000})
 	for _, id := range []string{"C09", "C01", "C10"} {
 		props[id].Harnesses = append(props[id].Harnesses, HarnessSpec{Name: "VH_C09_root_kinds", Replay: "native", Unwind: 400, Panics: id == "C09"})
 	}
